@@ -25,9 +25,11 @@ def handleSyn (toks : List String) : String :=
     its handles. -/
 def handleMrg (toks : List String) : String :=
   match splitOps toks with
-  | [nth, names, adds, kind] :: _ =>
+  | [nth, names, adds, kind0] :: _ =>
     match nth.toNat?, adds.toNat? with
     | some nth, some adds =>
+      -- `<kind>+` adds a collector thread; the cumulative reader's final total does not depend on it
+      let kind := if kind0.length = 2 ∧ kind0.toList.getLast? = some '+' then (kind0.take 1).toString else kind0
       let ns := names.toList
       if nth = 0 ∨ nth > 4 ∨ ns.length ≠ nth ∨ adds = 0 ∨ adds > 5 ∨ (kind ≠ "c" ∧ kind ≠ "u" ∧ kind ≠ "h") ∨
           ns.any (fun c => c < 'a' ∨ c > 'c') then "bad-op"
